@@ -320,7 +320,8 @@ theorem adds_inputOp (p : String) : Adds c 0 (inputOp p) := by
 theorem adds_copyOp (d s : String) (g : Bool) : Adds c 0 (copyOp d s g) := by
   unfold copyOp
   refine adds_bind0 c ?_ (fun _ => adds_bind0 c (adds_get c) (fun _ => adds_bind0 c (adds_callFunc c _ _ _) (fun _ =>
-    adds_bind0 c (adds_callFunc c _ _ _) (fun _ => adds_bind0 c (adds_get c) (fun _ => adds_pure c _)))))
+    adds_bind0 c (adds_nextHelperVar c) (fun _ => adds_bind0 c (adds_callFunc c _ _ _) (fun _ => adds_bind0 c (adds_get c) (fun _ =>
+      adds_bind0 c (adds_varAssignment c _ _ _) (fun _ => adds_varEvaluation c _ _)))))))
   apply adds_flag; intro s; simp
 
 theorem adds_existsOp (p : String) : Adds c 0 (existsOp p) := by
